@@ -84,6 +84,7 @@ def handleScale : List String → Option String
       | .linear _ => "linear"
       | .fixed _ => "fixed")
   | "sc" :: "b" :: rest => if bundledF.wf then handleScaleWith bundledF rest else some "pre-violated"
+  | "sc" :: "a" :: rest => if altF.wf then handleScaleWith altF rest else some "pre-violated"
   | _ => none
 
 end Cook.Driver
